@@ -386,6 +386,51 @@ def make_scanedge_workload(seed):
     return "\n".join(lines) + "\n", pre, {"shape": "scanedge/" + scen, "threads": nthreads, "kind": "scanedge"}
 
 
+def make_leaf_scenario(seed):
+    """one scenario for the Proto/Leaf correspondence: (scheddrv workload, model lines, nops per thread).
+    A single border node (no split: at most 6 preloaded keys + at most 6 inserts), 2-3 threads with
+    1-2 point operations each on a few hot keys (present and absent)."""
+    r = random.Random("leaf/%d" % seed)
+    npre = r.choice([0, 1, 2, 4, 6])
+    pre_keys = sorted(r.sample(range(1, 13), npre))
+    lines = ["storage 61", "bg 0"]
+    model = ["cap 15", "fix 1"]
+    val = 100
+    for k in pre_keys:
+        val += 1
+        lines.append("pre put %s %s" % (hx(b"k%02d" % k), hx(b"v%03d" % val)))
+        model.append("pre %d %d" % (k, val))
+    hot = r.sample(range(1, 13), r.choice([1, 1, 2]))
+    if pre_keys and r.random() < 0.7:
+        hot[0] = r.choice(pre_keys)
+    nthreads = r.choice([2, 2, 3])
+    counts = []
+    for t in range(nthreads):
+        lines.append("thread %d" % t)
+        ops = []
+        for i in range(r.choice([1, 2, 2]) if nthreads == 2 else r.choice([1, 1, 2])):
+            k = r.choice(hot)
+            x = r.random()
+            if x < 0.35:
+                ops.append("get:%d" % k)
+                lines.append("op get %s" % hx(b"k%02d" % k))
+            elif x < 0.6:
+                val += 1
+                ops.append("put:%d:%d" % (k, val))
+                lines.append("op put %s %s 0" % (hx(b"k%02d" % k), hx(b"v%03d" % val)))
+            elif x < 0.75:
+                val += 1
+                ops.append("uput:%d:%d" % (k, val))
+                lines.append("op put %s %s 1" % (hx(b"k%02d" % k), hx(b"v%03d" % val)))
+            else:
+                ops.append("rem:%d" % k)
+                lines.append("op remove %s" % hx(b"k%02d" % k))
+        counts.append(len(ops))
+        model.append("thread " + " ".join(ops))
+    model.append("go")
+    return "\n".join(lines) + "\n", model, counts
+
+
 def absorb_key(n):
     """model key (Nat) -> real key: kNN for multiples of 10, kNNy for NN*10+5"""
     return b"k%02d" % (n // 10) + (b"y" if n % 10 == 5 else b"")
